@@ -4,12 +4,12 @@ import json, os
 CHECKS = {
  "C09": dict(level="model_checking", engine="E1",
    technique="explicit-state BFS over operation histories of the real SceneGraph against a dictionary reference forest (all histories to a depth bound, then deviation-bounded), plus exhaustive enumeration of edge-specification forms",
-   text="Every history of update/re-parent/remove/base-frame/remove-geometry/query/export/copy actions over 4 frames and 2 exact matrices up to the stated depth is executed on the real SceneGraph and compared, in every reached state, with a dict-based reference forest (all ordered frame pairs, flattened export, edge-list rebuild, copy). States are merged on a canonical form that includes both caches and the hash memo. Histories are the quantifier of the property; a bounded exhaustive search over them is the strongest practical statement.",
+   text="Every history of update/re-parent/remove/base-frame/remove-geometry/query (explicit pair and default source frame)/export/copy actions over 4 frames and 2 exact matrices (plus a search over two nearly equal placements far from the origin) up to the stated depth is executed on the real SceneGraph and compared, in every reached state, with a dict-based reference forest (all ordered frame pairs, flattened export, edge-list rebuild, copy). States are merged on a canonical form that includes both caches and the hash memo. Histories are the quantifier of the property; a bounded exhaustive search over them is the strongest practical statement.",
    note="Trusts numpy matrix arithmetic and the reference forest (60 lines). Bounded by depth / deviation bound reported in the evidence; 4 frames, matrices exact in binary64.",
    design="3.C09"),
  "C02": dict(level="model_checking", engine="E1",
    technique="explicit-state BFS to a fixpoint over abstract (dirty flag, memo present, memo valid) states of a real TrackedArray and its derived handles; exhaustive enumeration of short container programs",
-   text="The dirty-flag protocol is a finite state machine once byte values are abstracted to 'memo valid or not'. The search runs the real TrackedArray through every view-creation / write-route / neutral-operation / hash-read action from every reached abstract state until the frontier closes (a fixpoint, reported in the evidence), and in every state hashes every live tracked handle on its own fresh replay against the hash of its current bytes and of a fresh array. Containers (DataStore, Trimesh, visuals, paths, point cloud, scene) are covered by all programs [pre-hash] x [handle kind] x [mid hash] x write route.",
+   text="The dirty-flag protocol is a finite state machine once byte values are abstracted to 'memo valid or not'. The search runs the real TrackedArray through every view-creation / write-route / neutral-operation / hash-read action from every reached abstract state until the frontier closes (a fixpoint, reported in the evidence), and in every state hashes every live tracked handle on its own fresh replay against the hash of its current bytes and of a fresh array. Containers (DataStore, Trimesh, visuals, paths, point cloud, scene) are covered by all programs [pre-hash] x [handle kind] x [mid hash] x write route, and by all programs over the `mutable` switch (lock / hash / unlock / write / lock / hash, and a view held across the lock). The abstraction of the private bookkeeping is name-agnostic (every instance attribute reduced to flag / None / valid / stale) with a blindness guard.",
    note="Trusts numpy and xxhash. Known findings (numpy write routes that bypass the subclass, untracked aliases) are listed in known_findings.json; exploration below a violating transition is pruned.",
    design="3.C02"),
  "C06": dict(level="exploration", engine="E2",
@@ -54,7 +54,7 @@ CHECKS = {
    design="3.C13"),
  "C10": dict(level="model_checking", engine="E1",
    technique="exhaustive enumeration of action histories (depth 2, with and without cache-filling reads) on real Scene objects against a placement-list reference model",
-   text="A scene is described by my own forest and geometry arrays; the reference is the explicit list of (node, geometry, world matrix) placements. For every scene of the family (chain / instanced templates x edge transforms incl. uniform scale, mixed kinds, empty frame, unreferenced geometry) every history of <=2 actions (copy, uniform / per-axis scaled, rezero, apply_transform, convert_units, + , append_scenes of 3, subscene, edge update, shared-geometry edits, add / delete geometry) is executed with and without reading every quantity first, and bounds, extents, centroid, area, volume, triangles, dump, to_mesh and convex hull are compared with the placement list; actions returning a new scene must leave the source unchanged.",
+   text="A scene is described by my own forest and geometry arrays; the reference is the explicit list of (node, geometry, world matrix) placements. For every scene of the family (chain / instanced templates x edge transforms incl. uniform scale, mixed kinds, empty frame, unreferenced geometry, planar drawings placed in and out of their plane) every history of <=2 actions (copy, uniform / per-axis scaled, rezero, apply_transform, convert_units, + , append_scenes of 3, subscene, edge update, shared-geometry edits, add / delete geometry, graph-level removal of a leaf node) is executed with and without reading every quantity first, and bounds, extents, centroid, area, volume, triangles, dump, to_mesh and convex hull are compared with the placement list; actions returning a new scene must leave the source unchanged.",
    note="Second actions after name-changing first actions are restricted to placement-level actions (the model does not track library-generated names). Similarity node transforms only.",
    design="3.C10"),
  "C11": dict(level="exploration", engine="E2",
